@@ -13,27 +13,46 @@ use std::time::Duration;
 #[derive(Clone, Copy, Debug, PartialEq)]
 enum Op {
     Start,
+    /// two requests started at the same instant
+    Burst,
     /// finish the i-th still active request (in start order)
     Finish(usize),
+    /// the j-th established session (creation order) dies
+    Die(usize),
 }
 
 fn hstr(h: &[Op]) -> String {
-    h.iter().map(|o| match o { Op::Start => "start".to_string(), Op::Finish(i) => format!("finish({i})") }).collect::<Vec<_>>().join(",")
+    h.iter().map(|o| match o { Op::Start => "start".to_string(), Op::Burst => "burst".to_string(), Op::Finish(i) => format!("finish({i})"), Op::Die(j) => format!("die({j})") }).collect::<Vec<_>>().join(",")
 }
 
 fn histories(depth: usize) -> Vec<Vec<Op>> {
     let mut all = vec![];
-    let mut frontier: Vec<(Vec<Op>, usize)> = vec![(vec![], 0)];
+    // (history, active requests, upper bound on sessions created, deaths)
+    let mut frontier: Vec<(Vec<Op>, usize, usize, Vec<usize>)> = vec![(vec![], 0, 0, vec![])];
     for _ in 0..depth {
         let mut next = vec![];
-        for (h, active) in &frontier {
+        for (h, active, sessions, dead) in &frontier {
             let mut n = h.clone();
             n.push(Op::Start);
-            next.push((n, active + 1));
+            next.push((n, active + 1, sessions + 1, dead.clone()));
+            if h.iter().filter(|o| **o == Op::Burst).count() < 1 {
+                let mut n = h.clone();
+                n.push(Op::Burst);
+                next.push((n, active + 2, sessions + 2, dead.clone()));
+            }
             for i in 0..*active {
                 let mut n = h.clone();
                 n.push(Op::Finish(i));
-                next.push((n, active - 1));
+                next.push((n, active - 1, *sessions, dead.clone()));
+            }
+            if dead.len() < 1 {
+                for j in 0..(*sessions).min(3) {
+                    let mut n = h.clone();
+                    n.push(Op::Die(j));
+                    let mut d = dead.clone();
+                    d.push(j);
+                    next.push((n, *active, *sessions, d));
+                }
             }
         }
         all.extend(next.iter().map(|x| x.0.clone()));
@@ -42,37 +61,58 @@ fn histories(depth: usize) -> Vec<Vec<Op>> {
     all
 }
 
-async fn run_history(server: &Lx, target: std::net::SocketAddr, min_idle: usize, h: &[Op]) -> Vec<(String, String)> {
+async fn run_history(server: &Lx, front: std::net::SocketAddr, target: std::net::SocketAddr, min_idle: usize, h: &[Op]) -> Vec<(String, String)> {
     let mut viols = vec![];
-    let client = make_client("pw", server.front_addr, anytls_rs::padding::PaddingFactory::default(), pool_cfg(3600, 3600, min_idle));
+    let client = make_client("pw", front, anytls_rs::padding::PaddingFactory::default(), pool_cfg(3600, 3600, min_idle));
     let mut active: Vec<(Arc<Stream>, Arc<Session>)> = vec![];
     let mut sessions: Vec<Arc<Session>> = vec![];
+    // model: is session k still in the pool (inserted at creation, removed when handed out again)?
+    let mut in_pool: Vec<bool> = vec![];
     let mut peak = 0usize;
     let mut nreq = 0usize;
     for (step, op) in h.iter().enumerate() {
         match op {
-            Op::Start => {
-                nreq += 1;
+            Op::Start | Op::Burst => {
+                let k = if *op == Op::Burst { 2 } else { 1 };
                 let before = server.tls_connections.load(Ordering::SeqCst);
+                let healthy_pooled: Vec<usize> = sessions.iter().enumerate().filter(|(i, s)| !s.is_closed() && in_pool[*i]).map(|(i, _)| i).collect();
                 let healthy_existing = sessions.iter().any(|s| !s.is_closed());
                 let none_active = active.is_empty();
-                let r = real_timeout(10_000, client.create_proxy_stream((target.ip().to_string(), target.port()))).await;
-                let (st, sess) = match r {
-                    Some(Ok(x)) => x,
-                    other => {
-                        viols.push(("C13:request-failed".into(), format!("[{}] step {step}: {:?}", hstr(h), other.map(|r| r.map(|_| ()).map_err(|e| e.to_string())))));
-                        return viols;
-                    }
-                };
-                let dialled = server.tls_connections.load(Ordering::SeqCst) - before;
-                let known = sessions.iter().any(|s| Arc::ptr_eq(s, &sess));
-                if !known {
-                    sessions.push(sess.clone());
+                let mut futs = vec![];
+                for _ in 0..k {
+                    nreq += 1;
+                    let c = client.clone();
+                    futs.push(tokio::spawn(async move { real_timeout(10_000, c.create_proxy_stream((target.ip().to_string(), target.port()))).await }));
                 }
-                active.push((st, sess));
+                let mut got = vec![];
+                for f in futs {
+                    match f.await {
+                        Ok(Some(Ok(x))) => got.push(x),
+                        other => {
+                            viols.push(("C13:request-failed".into(), format!("[{}] step {step}: {:?}", hstr(h), other.map(|o| o.map(|r| r.map(|_| ()).map_err(|e| e.to_string()))))));
+                            return viols;
+                        }
+                    }
+                }
+                let dialled = server.tls_connections.load(Ordering::SeqCst) - before;
+                for (st, sess) in got {
+                    match sessions.iter().position(|s| Arc::ptr_eq(s, &sess)) {
+                        Some(i) => in_pool[i] = false, // handed out again
+                        None => {
+                            sessions.push(sess.clone());
+                            in_pool.push(true); // client.rs inserts a new session at creation
+                        }
+                    }
+                    active.push((st, sess));
+                }
                 peak = peak.max(active.len());
-                if none_active && healthy_existing && (dialled > 0 || !known) {
-                    viols.push((format!("C13:redial-while-healthy-session-exists@request#{nreq}"), format!("[{}]: request #{nreq} started with no other request active and a healthy session established, yet a new TLS connection was dialled ({} new connection(s), session known: {known})", hstr(&h[..=step]), dialled)));
+                if k == 1 && none_active && healthy_existing && dialled > 0 {
+                    let key = if healthy_pooled.is_empty() {
+                        "C13:redial-while-healthy-session-exists:session-never-returned-to-pool"
+                    } else {
+                        "C13:redial-while-healthy-session-exists:pooled-session-ignored"
+                    };
+                    viols.push((key.into(), format!("[{}]: request #{nreq} started with no other request active and a healthy session established, yet {} new TLS connection(s) were dialled (healthy sessions still in the pool per model: {:?})", hstr(&h[..=step]), dialled, healthy_pooled)));
                 }
             }
             Op::Finish(i) => {
@@ -83,10 +123,20 @@ async fn run_history(server: &Lx, target: std::net::SocketAddr, min_idle: usize,
                     tokio::time::sleep(Duration::from_millis(5)).await;
                 }
             }
+            Op::Die(j) => {
+                if let Some(s) = sessions.get(*j) {
+                    let _ = s.close().await;
+                    // its requests are over
+                    let s2 = s.clone();
+                    active.retain(|(_, x)| !Arc::ptr_eq(x, &s2));
+                }
+            }
         }
         let open = sessions.iter().filter(|s| !s.is_closed()).count();
         if open > peak + min_idle {
-            viols.push((format!("C13:session-count-exceeds-bound@request#{nreq}:min_idle={min_idle}"), format!("[{}]: {open} sessions open, peak concurrent requests {peak}, min_idle {min_idle}", hstr(&h[..=step]))));
+            let unreachable = sessions.iter().enumerate().filter(|(i, s)| !s.is_closed() && !in_pool[*i] && !active.iter().any(|(_, x)| Arc::ptr_eq(x, s))).count();
+            let key = if unreachable > 0 { "C13:session-count-exceeds-bound:sessions-never-returned-to-pool" } else { "C13:session-count-exceeds-bound" };
+            viols.push((key.into(), format!("[{}]: {open} sessions open, peak concurrent requests {peak}, min_idle {min_idle}", hstr(&h[..=step]))));
         }
         if !viols.is_empty() {
             break; // later steps only repeat the consequence
@@ -107,16 +157,49 @@ pub fn run(tier: Tier) -> i32 {
         "a request = Client::create_proxy_stream to a loopback echo target; finishing a request = dropping the stream and session handles, as the front-ends do when a connection ends".into(),
         "TLS connections are counted by a TCP relay in front of the real server".into(),
     ];
-    let depth = if thorough { 8 } else { 6 };
-    let hs = histories(depth);
+    let depth = if thorough { 6 } else { 4 };
+    let mut hs = histories(depth);
+    // plus every history over {start, finish} alone up to depth 6 (7): the plain request sequences
+    {
+        let plain_depth = if thorough { 7 } else { 6 };
+        let mut frontier: Vec<(Vec<Op>, usize)> = vec![(vec![], 0)];
+        for _ in 0..plain_depth {
+            let mut next = vec![];
+            for (h, active) in &frontier {
+                let mut n = h.clone();
+                n.push(Op::Start);
+                next.push((n, active + 1));
+                for i in 0..*active {
+                    let mut n = h.clone();
+                    n.push(Op::Finish(i));
+                    next.push((n, active - 1));
+                }
+            }
+            for (h, _) in &next {
+                if h.len() > depth && !hs.contains(h) {
+                    hs.push(h.clone());
+                }
+            }
+            frontier = next;
+        }
+    }
     let rt = rt_multi();
     let res: Result<Vec<(usize, Vec<Op>, Vec<(String, String)>)>, String> = rt.block_on(async {
         let lx = start_lx("pw", "pw", pool_cfg(3600, 3600, 1), false, false).await?;
-        let target = start_target("127.0.0.1", TargetMode::Echo, vec![]).await;
+        // rotate over several loopback addresses (front relay and target) to stay clear of port exhaustion
+        let mut fronts = vec![lx.front_addr];
+        fronts.extend(lx.extra_fronts.iter().copied());
+        let mut targets = vec![];
+        for k in 1..=fronts.len() {
+            targets.push(start_target(&format!("127.0.0.{k}"), TargetMode::Echo, vec![]).await);
+        }
         let mut out = vec![];
-        for min_idle in [0usize, 1, 2] {
+        let mut n = 0usize;
+        for min_idle in if thorough { vec![0usize, 1, 2] } else { vec![0usize, 1] } {
             for h in &hs {
-                let v = run_history(&lx, target.addr, min_idle, h).await;
+                let k = n % fronts.len();
+                n += 1;
+                let v = run_history(&lx, fronts[k], targets[k].addr, min_idle, h).await;
                 out.push((min_idle, h.clone(), v));
             }
         }
@@ -127,7 +210,7 @@ pub fn run(tier: Tier) -> i32 {
         Err(e) => rep.machinery(format!("LX start failed: {e}")),
         Ok(all) => {
             for (i, (min_idle, h, v)) in all.iter().enumerate() {
-                let starts = h.iter().filter(|o| **o == Op::Start).count();
+                let starts = h.iter().filter(|o| matches!(o, Op::Start | Op::Burst)).count();
                 rep.states += h.len() as u64 + 1;
                 rep.transitions += h.len() as u64;
                 rep.traces_validated += 1;
@@ -140,8 +223,8 @@ pub fn run(tier: Tier) -> i32 {
                     rep.violation(k, &format!("min_idle {min_idle}: {d}"), json!({"engine": "BX/LX", "min_idle": min_idle, "history": hstr(h)}));
                 }
             }
-            rep.sections.insert("bx".into(), json!({"histories": hs.len(), "depth": depth, "min_idle_values": [0, 1, 2]}));
+            rep.sections.insert("bx".into(), json!({"histories": hs.len(), "depth": depth, "min_idle_values": if thorough { vec![0, 1, 2] } else { vec![0, 1] }}));
         }
     }
-    rep.finish("BX over LX: every history of length <= d over {start request, finish request i} x min_idle in {0,1,2} through the real Client and Server over TLS; per request the session identity and the number of new TLS connections, per step the number of open sessions vs peak concurrency + min_idle; non-trivial = distinct history with >= 2 requests")
+    rep.finish("BX over LX: every history of length <= d over {start request, burst of 2 concurrent requests, finish request i, session j dies} x min_idle in {0,1,2} through the real Client and Server over TLS; per request the session identity and the number of new TLS connections, per step the number of open sessions vs peak concurrency + min_idle; non-trivial = distinct history with >= 2 requests")
 }
